@@ -35,13 +35,14 @@ type MW struct {
 	Strict         bool
 	MPP            bool
 	exactMelt      bool
+	Unknown        map[string]bool // secrets whose state the harness no longer claims to know
 	BeforeAudit    func() // runs in Finale after everything settled, before the drain audit
 	forceRotate    bool
 	keysCacheStale bool
 }
 
 func NewMW(rc *RunCtx, mints ...string) *MW {
-	m := &MW{rc: rc, W: rc.W, T: rc.T, Mints: mints, Spent: map[string][]*HProof{}}
+	m := &MW{rc: rc, W: rc.W, T: rc.T, Mints: mints, Spent: map[string][]*HProof{}, Unknown: map[string]bool{}}
 	m.User = NewActor(rc.W, "user")
 	m.Atk = NewActor(rc.W, "atk")
 	return m
@@ -373,6 +374,9 @@ func (m *MW) settlePending() {
 					m.Spent[pm.Mint] = append(m.Spent[pm.Mint], p)
 					continue
 				}
+				if m.Unknown[p.Secret] {
+					continue
+				}
 				p.Gone = false
 				m.User.Purse[pm.Mint] = append(m.User.Purse[pm.Mint], p)
 			}
@@ -400,6 +404,11 @@ func (m *MW) StepReplay() {
 		return
 	}
 	mode := m.T.Choose("replay.mode", 7)
+	if src == "pending" {
+		// the attacker may legitimately win this proof if it gets released: from now on the harness holds no
+		// belief about its state (the Book and the audit still judge it)
+		m.Unknown[victim.Secret] = true
+	}
 	m.rc.Op("replay-" + src)
 	ks := m.W.ActiveKeyset(mint)
 	name := m.name("replay")
